@@ -131,6 +131,10 @@ def run(ctx):
     ctx.cov["binding_selftest"]["switch_DialNested_TRUE_gives_deadlock"] = rl2.deadlock
     if not rl2.deadlock:
         raise vlib.NoVerdict("vacuity guard failed: a Dial that nests the two locks does not deadlock the model")
+    rl3 = ctx.tlc("ConnLocks", ctx.cfg("ConnLocks_mc.cfg", {"NestedRead": "TRUE"}), timeout=300, name="ConnLocks-nestedread", count=False)
+    ctx.cov["binding_selftest"]["switch_NestedRead_TRUE_gives_deadlock"] = rl3.deadlock
+    if not rl3.deadlock:
+        raise vlib.NoVerdict("vacuity guard failed: an address-book reader that takes the read lock twice does not deadlock the model")
     # ---- the real control plane under the same entry sequences
     scs = scenarios(quick)
 
